@@ -635,5 +635,7 @@ func orderLemmas() map[string]bool {
 		"(github.com/Comcast/sheens/match.Bindings).Copy": true,
 		"github.com/Comcast/sheens/match.copyMap":         true,
 		"(github.com/Comcast/sheens/core.StepProps).Copy": true,
+		"(*github.com/Comcast/sheens/sio.Crew).GetChanged": true, // lemma: sio.VerifSioOrderLemmas
+		"(*github.com/Comcast/sheens/core.FuncAction).Exec": true, // lemma: core.VerifCoreOrderLemmas
 	}
 }
